@@ -1,9 +1,11 @@
 package main
 
 import (
+	"fmt"
 	"go/ast"
 	"go/token"
 	"go/types"
+	"os"
 	"strings"
 )
 
@@ -163,46 +165,47 @@ func runC20(c *Ctx) {
 	}
 
 	// ---- R3 ----
+	if os.Getenv("PINTSA_DUMP_FLAGS") != "" {
+		dumpSearchFlags(c)
+	}
+	checkSearchFlags(c, "C20-R3", "internal/checks.RuleDependencyCheck.Check")
+	c20TreeComplete(c, "C20-R3")
 	if chk != nil {
 		info := chk.Pkg.TypesInfo
 		fl := p.NewFlow(chk)
 		pm := parentMap(chk.Decl.Body)
 		// replacement comparison: Type()==Type() && Name()==Name()
-		isReplacementCond := func(e ast.Expr) bool {
-			hasType, hasName := false, false
-			ast.Inspect(e, func(n ast.Node) bool {
-				be, ok := n.(*ast.BinaryExpr)
-				if !ok || be.Op != token.EQL {
-					return true
-				}
-				cx, okx := be.X.(*ast.CallExpr)
-				cy, oky := be.Y.(*ast.CallExpr)
-				if okx && oky {
-					if isCallTo(info, cx, "internal/parser.Rule.Type") && isCallTo(info, cy, "internal/parser.Rule.Type") {
-						hasType = true
-					}
-					if isCallTo(info, cx, "internal/parser.Rule.Name") && isCallTo(info, cy, "internal/parser.Rule.Name") {
-						hasName = true
-					}
-				}
-				return true
-			})
-			return hasType && hasName
+		// (both comparisons guard the return, as one condition or as nested ifs)
+		bothCalls := func(e ast.Expr, q string) bool {
+			be, ok := ast.Unparen(e).(*ast.BinaryExpr)
+			if !ok || be.Op != token.EQL {
+				return false
+			}
+			cx, okx := ast.Unparen(be.X).(*ast.CallExpr)
+			cy, oky := ast.Unparen(be.Y).(*ast.CallExpr)
+			return okx && oky && isCallTo(info, cx, q) && isCallTo(info, cy, q)
 		}
 		var replLoop *ast.RangeStmt
 		ast.Inspect(chk.Decl.Body, func(n ast.Node) bool {
-			ifs, ok := n.(*ast.IfStmt)
-			if !ok || !isReplacementCond(ifs.Cond) {
+			rs, ok := n.(*ast.RangeStmt)
+			if !ok || rs.Body == nil {
 				return true
 			}
-			rets := returnsIn(ifs.Body.List)
-			if len(rets) == 0 {
-				return true
-			}
-			for cur := pm[ifs]; cur != nil; cur = pm[cur] {
-				if rs, ok := cur.(*ast.RangeStmt); ok {
+			for _, ret := range returnsIn(rs.Body.List) {
+				hasType, hasName := false, false
+				for _, g := range lexicalGuards(pm, ret, rs.Body) {
+					if !g.Truth || g.Tag != nil {
+						continue
+					}
+					if bothCalls(g.E, "internal/parser.Rule.Type") {
+						hasType = true
+					}
+					if bothCalls(g.E, "internal/parser.Rule.Name") {
+						hasName = true
+					}
+				}
+				if hasType && hasName && replLoop == nil {
 					replLoop = rs
-					break
 				}
 			}
 			return true
@@ -585,4 +588,101 @@ func c20Dispatch(c *Ctx) {
 		}
 		c.Check(ok, "C20-R4", "scanWorker:every problem is forwarded", sw.Decl.Pos(), "unconditional send per problem", "a problem returned by a check can be dropped before reaching the summary")
 	}
+}
+
+// c20SearchFlags: a search flag set in an inner loop and tested in the
+// enclosing one starts afresh for every element of the enclosing loop.
+func checkSearchFlags(c *Ctx, rule string, fns ...string) {
+	p := c.P
+	n := 0
+	for _, q := range fns {
+		fi := c.MustFunc(rule, q)
+		if fi == nil {
+			continue
+		}
+		for _, f := range searchFlags(fi.Pkg.TypesInfo, fi.Decl.Body) {
+			n++
+			c.Check(f.Fresh, rule, fi.Obj.Name()+":search flag ("+typeRole(f.Var)+") starts afresh for every element", f.Inner.Pos(), "declared or reset inside the enclosing loop",
+				"the flag that the loop at "+p.Pos(f.Inner.Pos())+" sets is declared outside the enclosing loop at "+p.Pos(f.Outer.Pos())+" and not reset there: once it is true it stays true, and every later element is treated as if its own search had succeeded")
+		}
+	}
+	c.Check(n >= 1, rule, "search flags enumerated", token.NoPos, itoa(n), "no search flag found in "+strings.Join(fns, ", "))
+}
+
+func dumpSearchFlags(c *Ctx) {
+	p := c.P
+	for _, fi := range p.AllFuncs() {
+		if fi.Decl.Body == nil || p.IsTestFile(fi.Decl.Pos()) {
+			continue
+		}
+		for _, f := range searchFlags(fi.Pkg.TypesInfo, fi.Decl.Body) {
+			fmt.Fprintf(os.Stderr, "FLAG %s %s fresh=%v at %s\n", fi.Name, f.Var.Name(), f.Fresh, p.Pos(f.Inner.Pos()))
+		}
+	}
+}
+
+// c20TreeComplete: the syntax tree the checks search (parser.tree) has a node
+// for every child the vendored parser reports: the loop over
+// promParser.Children(expr) appends tree(child) for every element, with no
+// guard and no way to skip one. A pruned child (an aggregation parameter, say)
+// hides the selectors inside it from every HasVectorSelector search.
+func c20TreeComplete(c *Ctx, R string) {
+	fi := c.MustFunc(R, "internal/parser.tree")
+	if fi == nil {
+		return
+	}
+	info := fi.Pkg.TypesInfo
+	pm := parentMap(fi.Decl.Body)
+	var loop *ast.RangeStmt
+	ast.Inspect(fi.Decl.Body, func(n ast.Node) bool {
+		if rs, ok := n.(*ast.RangeStmt); ok {
+			src := ast.Unparen(rs.X)
+			if call, ok := src.(*ast.CallExpr); ok {
+				if fn := Callee(info, call); fn != nil && fn.Name() == "Children" && fn.Pkg() != nil && fn.Pkg().Path() == "github.com/prometheus/prometheus/promql/parser" && len(call.Args) == 1 && isObj(info, call.Args[0], paramObj(fi, 0)) {
+					loop = rs
+				}
+			}
+		}
+		return true
+	})
+	if loop == nil {
+		c.Bad(R, "tree:ranges over promParser.Children(expr)", fi.Decl.Pos(), "tree() no longer walks promParser.Children of the node it was given")
+		return
+	}
+	var rec *ast.CallExpr
+	ast.Inspect(loop.Body, func(n ast.Node) bool {
+		if call, ok := n.(*ast.CallExpr); ok && rec == nil && Callee(info, call) == fi.Obj && len(call.Args) >= 1 && objOf(info, call.Args[0]) != nil && objOf(info, call.Args[0]) == objOf(info, loop.Value) {
+			rec = call
+		}
+		return true
+	})
+	why := ""
+	switch {
+	case rec == nil:
+		why = "the loop body does not call tree(child)"
+	case len(lexicalGuards(pm, rec, loop.Body)) > 0:
+		why = "tree(child) is guarded by `" + exprStr(lexicalGuards(pm, rec, loop.Body)[0].E) + "`"
+	default:
+		for _, st := range loop.Body.List {
+			if st.End() <= rec.Pos() && containsBranch(st) {
+				why = "a statement in front of tree(child) can skip the element"
+			}
+		}
+		// the result is appended to the node's children
+		if why == "" {
+			ok := false
+			if call, isCall := pm[rec].(*ast.CallExpr); isCall && exprStr(call.Fun) == "append" {
+				if as, isAs := pm[call].(*ast.AssignStmt); isAs && len(as.Lhs) == 1 {
+					if sel, isSel := as.Lhs[0].(*ast.SelectorExpr); isSel && sel.Sel.Name == "Children" {
+						ok = true
+					}
+				}
+			}
+			if !ok {
+				why = "the result of tree(child) is not appended to Children"
+			}
+		}
+	}
+	c.Check(why == "", R, "tree:every child reported by the vendored parser becomes a node", loop.Pos(), "unconditional append(tree(child))",
+		why+": the part of the query below that child is invisible to every search over the tree, so a rule that uses the removed metric only there is not listed as a dependant")
 }
